@@ -874,10 +874,12 @@ class CSSStyleSheet(cssutils.stylesheets.StyleSheet):
                 self._cssRules.insert(index, rule)
 
         # post settings
+        reparented = rule._parentStyleSheet is not self
         rule._parentStyleSheet = self
 
-        if rule.IMPORT_RULE == rule.type and not rule.hrefFound:
+        if rule.IMPORT_RULE == rule.type and not rule.hrefFound and reparented:
             # try loading the imported sheet which has new relative href now
+            # (a rule created for this sheet has tried already)
             rule.href = rule.href
 
         return index
